@@ -299,7 +299,7 @@ def c06(tier, replay=None):
     covs, opcov, alljobs = [], collections.Counter(), []
     itr_only = dict(CODES='{"a"}', CATS='{"k"}', VALS='{"s1"}', MaxNames=2, MaxLast=3)
     if tier == "quick":
-        plans = [("loop3-d4", dict(itr_only, SCRIPT="ScriptLoop", MaxHist=4, NAMES='{"_x", "_y", "_z"}', MaxPkt=2), "states"),
+        plans = [("loop3-d4", dict(itr_only, SCRIPT="ScriptLoop", MaxHist=4, NAMES='{"_x", "_y", "_z"}', MaxPkt=2, PVALS='{"s1", "s2", "u"}'), "states"),
                  # a loop without category: iterate, remove, close, then add packets again (row numbering after removal)
                  ("loopnull-d6", dict(CODES='{"a"}', CATS='{"NULL"}', VALS='{"s1"}', PVALS='{"s1", "s2"}', MaxNames=1, MaxLast=4, NAMES='{"_x"}', MaxPkt=1, SCRIPT="ScriptLoopN", MaxHist=6, CSLOTS="MCCSlots1", LSLOTS="MCLSlots1"), "states"),
                  ("cross-d3", dict(itr_only, SCRIPT="ScriptCross", MaxHist=3, CODES='{"a", "b"}', NAMES='{"_x", "_y"}', VALS='{"s1"}', PVALS='{"s1", "s2"}', MaxNames=1, MaxPkt=1, MaxId=2, CSLOTS="MCCSlots2", LSLOTS="MCLSlots2"), "states")]
